@@ -159,3 +159,33 @@ CHECKS["C20"] = {
     "stubs": [], "assumptions": ["functions, channels and pointers are distinct objects in the two runs: their dynamic type is compared, not their identity", "all NaNs are one value"],
     "outside": ["effects on the environment beyond the result", "assignment targets whose store must re-bind the target (strings, append at len)", "chains of length 3"],
 }
+
+_C01_RUNS = [
+    R("./vm", {"fn": r"^ZZ_C01_k_.*_quick$"}, {"fn": r"^ZZ_C01_k_[A-Za-z]*$", "wall_timeout": 14000}),
+]
+
+CHECKS["C01"] = {
+    "corpus": True,
+    "assert_filter": r"C01\.|C15\.P2\.|no-host-crash",
+    "runs": _C01_RUNS + [R("./parser", {"fn": r"^ZZ_C15_P2_parse_n[12]$"}, {"fn": r"^ZZ_C15_P2_parse_n[123]$"})],
+    "expect_asserts": [r"C01\.step\.no-panic/CallExpr", r"C01\.step\.no-panic/LetsStmt", r"C01\.step\.no-goroutine-crash/CallExpr", r"C15\.P2\.parse-no-panic", r"C01\.step\.bindings-well-formed/.*"],
+    "bounds": {"quick": {"node kinds": "all (derived from go/types), one node with arbitrary children (inductive step)", "varied child": "19 value classes x 2 provenances or a failing child; one further child over 3 benign classes",
+                         "statement children": "one child over 6 outcomes (normal, break, continue, return, error, throw)", "lists": "0..2 elements", "parse": "sources of <= 2 symbolic ASCII runes through the real ParseSrc"},
+               "thorough": {"varied child": "all 34 value classes x 2 provenances", "parse": "<= 3 runes"}},
+    "stubs": ["host Go functions of the universe: identity, variadic, one that panics, one returning (value, error)", "instruction budget 300000 per step: non-terminating loops are cut and counted"],
+    "assumptions": ["non-node fields take the values the grammar can produce (operator spellings, identifier names, typed literals with slice/map types, make with any type of the pool)",
+                    "closure: the step's result is an error or a valid value and every binding it leaves is valid+interfaceable; that is what the next step assumes of its operands"],
+    "outside": ["memory/stack exhaustion (allocations beyond 2^20 elements cut the path)", "host values outside the universe", "Debug=true", "sources longer than the rune bound (the per-token scanner lemma of C15 covers tokens up to 6 runes)"],
+}
+
+CHECKS["C14"] = {
+    "corpus": True,
+    "assert_filter": r"C14\.",
+    "runs": _C01_RUNS,
+    "expect_asserts": [r"C14\.F1\.tree-and-globals-read-only/CallExpr", r"C14\.F1\.tree-and-globals-read-only/LiteralExpr", r"C14\.F1\.tree-and-globals-read-only/StmtsStmt"],
+    "bounds": {"F1": "every node kind with arbitrary children (the C01 step instances): the tree and every object that existed after package initialisation are frozen during RunContext"},
+    "stubs": ["write barrier of the engine on Store / MapUpdate / delete / in-place append / reflect Set"],
+    "assumptions": ["frame argument: no evaluation step writes the tree or process-wide state (F1) => runs on separate environments commute, so k sequential or concurrent runs of one tree give their solo results",
+                    "run-time values referenced from literals (containers, pointers) are data, not syntax"],
+    "outside": ["goroutine interleavings under the race detector: replaced by the frame argument (not encoded)", "import copies and the determinism ledger (F3/F4) are not part of this check yet"],
+}
